@@ -5,6 +5,7 @@ import (
 	"time"
 
 	fpgo "github.com/TeaEntityLab/fpGo/v2"
+	"github.com/TeaEntityLab/fpGo/v2/worker"
 	"github.com/TeaEntityLab/fpGo/v2/zzverif/vsched"
 	"verifharness/lib/e1"
 	"verifharness/scenlib"
@@ -266,11 +267,15 @@ func corExternal(bound int) *vsched.Scenario {
 // panics here, so the panic handler must stay silent; no goroutine (submitter, worker, spawn loop,
 // loader) may panic; a Schedule begun after Close returned reports ErrWorkerPoolIsClosed and its
 // job never runs.
-func poolClose(cfg scenlib.PoolCfg, jobs int, kind string, when string, bound int, delay bool) *vsched.Scenario {
+func poolClose(cfg scenlib.PoolCfg, jobs int, kind string, when string, bound int, delay bool, keepQueue bool) *vsched.Scenario {
 	fam := "pool-close"
 	var g *scenlib.Gauge
+	qn := ""
+	if keepQueue {
+		qn = "/queue-left-open"
+	}
 	return &vsched.Scenario{
-		Name:     fmt.Sprintf("pool-close/%s/jobs%d-%s/close-%s", cfg, jobs, kind, when),
+		Name:     fmt.Sprintf("pool-close/%s/jobs%d-%s/close-%s%s", cfg, jobs, kind, when, qn),
 		Bound:    bound,
 		Delay:    delay,
 		TimerDev: true,
@@ -279,6 +284,9 @@ func poolClose(cfg scenlib.PoolCfg, jobs int, kind string, when string, bound in
 		Body: func() {
 			g = &scenlib.Gauge{}
 			p := scenlib.NewPool(cfg, func(v interface{}) { vsched.Event("panic-handler", fmt.Sprint(v)) })
+			if keepQueue {
+				p.SetIsJobQueueClosedWhenClose(false) // Close leaves the (possibly shared) job queue open
+			}
 			started := make(chan int, jobs+1)
 			scheduled := make(chan int, 1)
 			vsched.GoNamed("submitter", func() {
@@ -298,7 +306,12 @@ func poolClose(cfg scenlib.PoolCfg, jobs int, kind string, when string, bound in
 			}
 			p.Close()
 			vsched.Event("pool-closed", p.IsClosed())
+			// every entry point that submits work, begun after Close returned
 			vsched.Event("late-sched", scenlib.SchedErr(p.Schedule(scenlib.Job(99, "plain", g))))
+			vsched.Event("late-sched-timeout", scenlib.SchedErr(p.ScheduleWithTimeout(scenlib.Job(98, "plain", g), 6*time.Millisecond)))
+			inv := worker.NewDefaultInvokable[int](p, func(id int) { scenlib.Job(id, "plain", g)() })
+			inv.Invoke(97)
+			vsched.Event("late-invoke-timeout", scenlib.SchedErr(inv.InvokeWithTimeout(96, 6*time.Millisecond)))
 		},
 		Check: func(r *vsched.Result) []vsched.Failure {
 			fs := e1.Basic("C15", fam, r, nil)
@@ -314,8 +327,16 @@ func poolClose(cfg scenlib.PoolCfg, jobs int, kind string, when string, bound in
 			if e1.Count(r, "late-sched", "closed") != 1 {
 				fs = append(fs, e1.Fail("C15|"+fam+"|after-close-result", "Schedule begun after Close returned did not report ErrWorkerPoolIsClosed: %v", r.Events))
 			}
-			if e1.Count(r, "start", 99) > 0 {
-				fs = append(fs, e1.Fail("C15|"+fam+"|ran-after-close", "a job scheduled after Close returned was run"))
+			if e1.Count(r, "late-sched-timeout", "closed") != 1 {
+				fs = append(fs, e1.Fail("C15|"+fam+"|after-close-result|ScheduleWithTimeout", "ScheduleWithTimeout begun after Close returned did not report ErrWorkerPoolIsClosed: %v", r.Events))
+			}
+			if e1.Count(r, "late-invoke-timeout", "closed") != 1 {
+				fs = append(fs, e1.Fail("C15|"+fam+"|after-close-result|InvokeWithTimeout", "InvokeWithTimeout begun after Close returned did not report ErrWorkerPoolIsClosed: %v", r.Events))
+			}
+			for id, via := range map[int]string{99: "Schedule", 98: "ScheduleWithTimeout", 97: "Invoke", 96: "InvokeWithTimeout"} {
+				if e1.Count(r, "start", id) > 0 {
+					fs = append(fs, e1.Fail("C15|"+fam+"|ran-after-close|"+via, "a job submitted through %s after Close returned was run", via))
+				}
 			}
 			for j := 1; j <= jobs; j++ {
 				if e1.Count(r, "start", j) > 1 {
@@ -367,9 +388,9 @@ func scenarios(tier string) []*vsched.Scenario {
 	pc := []scenlib.PoolCfg{{Cap: 1, Buf: 1, Max: 1, StandBy: 1, Batch: 1}, {Cap: 1, Buf: 0, Max: 2, StandBy: 0, Batch: 1}}
 	for _, c := range pc {
 		for _, when := range []string{"now", "scheduled", "started", "idle"} {
-			out = append(out, poolClose(c, 1, "plain", when, 1, false), poolClose(c, 2, "slow", when, 2, true))
+			out = append(out, poolClose(c, 1, "plain", when, 1, false, false), poolClose(c, 2, "slow", when, 2, true, false), poolClose(c, 1, "plain", when, 1, false, true))
 			if tier == "thorough" {
-				out = append(out, poolClose(c, 2, "plain", when, 2, false), poolClose(c, 3, "slow", when, 3, true))
+				out = append(out, poolClose(c, 2, "plain", when, 2, false, false), poolClose(c, 3, "slow", when, 3, true, false), poolClose(c, 2, "slow", when, 2, true, true))
 			}
 		}
 	}
